@@ -2,6 +2,7 @@ package main
 
 import (
 	"fmt"
+	"regexp"
 	"go/constant"
 	"go/types"
 	"math/big"
@@ -130,6 +131,8 @@ func calleeShortName(cc *ssa.CallCommon) string {
 
 // ---- obligations -------------------------------------------------------
 
+var reAxiomSym = regexp.MustCompile(`g_[A-Za-z0-9_]+|\|H0![^|]+\|`)
+
 func (st *State) script(goal string) string {
 	var b strings.Builder
 	b.WriteString(st.eng.prelude())
@@ -137,7 +140,29 @@ func (st *State) script(goal string) string {
 		b.WriteString(d)
 		b.WriteByte('\n')
 	}
-	for _, a := range st.assumes {
+	// axioms are included only when one of their ghost / global symbols occurs elsewhere in the query
+	var rest strings.Builder
+	for i, a := range st.assumes {
+		if !st.isAxiom[i] {
+			rest.WriteString(a)
+			rest.WriteByte('\n')
+		}
+	}
+	rest.WriteString(goal)
+	restS := rest.String()
+	for i, a := range st.assumes {
+		if st.isAxiom[i] {
+			rel := false
+			for _, symb := range reAxiomSym.FindAllString(a, -1) {
+				if strings.Contains(restS, symb) {
+					rel = true
+					break
+				}
+			}
+			if !rel {
+				continue
+			}
+		}
 		b.WriteString("(assert ")
 		b.WriteString(a)
 		b.WriteString(")\n")
@@ -666,6 +691,13 @@ func (vf *VerifyFunc) step(st *State, fr *Frame, in ssa.Instruction) bool {
 		if c.Tm == "false" {
 			return vf.enterBlock(st, fr, fb)
 		}
+		if v, ok := st.decided(c.Tm); ok {
+			// the branch condition is already fixed by an earlier decision on this path (e.g. the same type switch twice)
+			if v {
+				return vf.enterBlock(st, fr, tb)
+			}
+			return vf.enterBlock(st, fr, fb)
+		}
 		vf.paths++
 		if vf.paths > eng.maxPaths {
 			vf.truncated = true
@@ -675,11 +707,13 @@ func (vf *VerifyFunc) step(st *State, fr *Frame, in ssa.Instruction) bool {
 		st2 := st.fork()
 		fr2 := st2.top()
 		st2.assume(not(c.Tm))
+		st2.decide(c.Tm, false)
 		st2.trail = append(st2.trail, fmt.Sprintf("b%d:F", fr.block.Index))
 		if vf.enterBlock(st2, fr2, fb) {
 			vf.run(st2)
 		}
 		st.assume(c.Tm)
+		st.decide(c.Tm, true)
 		st.trail = append(st.trail, fmt.Sprintf("b%d:T", fr.block.Index))
 		return vf.enterBlock(st, fr, tb)
 	case *ssa.Return:
